@@ -88,6 +88,44 @@ void bits_signed(sink& out, std::uint64_t salt)
     }
 }
 
+// used_digits / leading_bits on CNL integer wrappers (multi-limb wide_integer, elastic over wide): the counts that decide
+// deduced digit numbers; W's value is assembled from 128-bit pieces and read back from its limbs
+template<class W>
+void bits_wrapper(sink& out, std::uint64_t salt)
+{
+    int id = add_inst(out, ev("Inst").str("kind", "BitsW").str("op", "digits").raw("lt", desc<W>()).raw("rt", desc<W>()).raw("res_t", desc<int>()));
+    constexpr int D = cnl::digits_v<W>;
+    std::vector<W> vs;
+    auto both = [&](W const& v) {
+        vs.push_back(v);
+        if constexpr (cnl::numbers::signedness_v<W>) {
+            vs.push_back(W(-v));
+            vs.push_back(W(-v - make<W>(false, 1)));
+        }
+    };
+    for (unsigned k : {0U, 1U, 2U, 3U, 5U, 7U, 8U, 255U, 256U, 65535U}) {
+        both(make<W>(false, k));
+    }
+    rng r(salt);
+    for (int sh = 0; sh + 2 < D; sh += (sh < 140 ? 7 : 31)) {
+        W one = make<W>(false, 1);
+        W p = W(one << sh);
+        both(p);
+        both(W(p + make<W>(false, r.g() % 1000)));
+        both(W(p - one));
+    }
+    for (auto const& v : vs) {
+        int ud = 0, lb = 0;
+        auto o = guarded([&] {
+            ud = cnl::used_digits(v);
+            lb = cnl::leading_bits(v);
+        });
+        char buf[96];
+        std::snprintf(buf, sizeof(buf), "{\"ud\":%d,\"lb\":%d}", ud, lb);
+        out.put(ev("BitsW").num("i", id).raw("x", raw(v)).raw("f", buf).str("out", o).s);
+    }
+}
+
 int main(int argc, char** argv)
 {
     if (argc < 2) {
@@ -107,6 +145,11 @@ int main(int argc, char** argv)
     bits_signed<std::int64_t>(out, 14);
     bits_signed<long long>(out, 15);
     bits_signed<i128>(out, 16);
+    bits_wrapper<cnl::wide_integer<200>>(out, 21);
+    bits_wrapper<cnl::wide_integer<129, unsigned>>(out, 22);
+    bits_wrapper<cnl::wide_integer<256, std::int32_t>>(out, 23);
+    bits_wrapper<cnl::elastic_integer<150, cnl::wide_integer<8>>>(out, 24);
+    bits_wrapper<cnl::elastic_integer<40>>(out, 25);
     std::fprintf(stderr, "events=%llu insts=%d\n", out.n, out.ninst);
     return 0;
 }
